@@ -34,7 +34,7 @@ func c18aSizes(e *Entry, thorough bool) []Size {
 		if e.PlainMulti == "split" && !contains(s.PlainGPUs, 4) {
 			continue
 		}
-		if !s.Quick && !(thorough && s.Timing) {
+		if !s.Quick && !s.Spread && !(thorough && s.Timing) {
 			continue
 		}
 		out = append(out, s)
@@ -65,14 +65,31 @@ func (m *Matrix) C18aCases(thorough bool) (cases []Case, refs []int, skipped int
 		}
 		for _, md := range modes {
 			sizes := c18aSizes(e, thorough)
-			if md.mode == "timing" && len(sizes) > 1 {
-				sizes = sizes[:1]
+			if md.mode == "timing" {
+				// one small size, and the spread size only for emulation (cost)
+				var small []Size
+				for _, s := range sizes {
+					if !s.Spread && len(small) == 0 {
+						small = append(small, s)
+					}
+				}
+				sizes = small
 			}
 			for _, s := range sizes {
 				ref := Case{Workload: e.Name, Params: s.Params, SizeName: s.Name, Arch: md.arch, GPUs: []int{1},
 					Mode: md.mode, GPUType: md.gpu, WantOutputs: true, SkipVerify: true}
+				if len(Lookup(e.Name).Outputs) == 0 {
+					// conv2d / im2col keep their results inside the operator and discard them; the
+					// list of live buffers is not comparable across spreads (the driver allocates
+					// per-GPU dispatch packets in unified mode). For these two the spread is
+					// judged by the workload's own tolerance: the operator's GPU-vs-CPU check
+					// (1% relative) must pass on every spread.
+					ref.WantOutputs, ref.SkipVerify = false, false
+				}
 				ri := len(cases)
+				ref.IsRef = true
 				cases = append(cases, ref)
+				ref.IsRef = false
 				refs = append(refs, ri)
 				for _, g := range sets {
 					if ok, _ := e.Admissible(s, g); !ok {
@@ -154,6 +171,10 @@ func compareOutputs(w *Workload, a, b *Result) (equal bool, withinTol bool, msg 
 }
 
 func c18aSig(c Case, what string) string {
+	if strings.HasPrefix(what, "run-failed:") {
+		// a run that dies: symptom first, so that one root cause is one (prefix) signature
+		return fmt.Sprintf("lattice/run-failed/%s/%s/%s/%s/%s", strings.TrimPrefix(what, "run-failed:"), c.Platform(), c.Workload, c.Arch, c.GPUClass())
+	}
 	return fmt.Sprintf("lattice/%s/%s/%s/%s", c.Workload, c.Arch, c.GPUClass(), what)
 }
 
@@ -198,9 +219,11 @@ func RunC18a(r *harness.Run) {
 		}
 		g.names = append(g.names, p.Case.Name())
 	}
-	compared, equalN, undecided := 0, 0, 0
+	compared, equalN, undecided, tolOnly := 0, 0, 0, 0
+	var undecidedNames []string
 	classes := map[string]bool{}
 	var samples []any
+	var refFailed []string
 	for i, c := range cases {
 		o := outs[i]
 		pair := C18aPair{Kind: "c18a", Ref: cases[refs[i]], Case: c}
@@ -211,9 +234,18 @@ func RunC18a(r *harness.Run) {
 		case "ok":
 		case "capped", "infra", "lostwakeup":
 			undecided++
+			undecidedNames = append(undecidedNames, c.Name()+": "+o.Status+" "+o.Symptom)
 			continue
 		default:
-			add(c18aSig(c, "run-failed:"+o.Symptom), pair, fmt.Sprintf("the run itself failed in stage %s:\n%s", o.Stage, o.Detail))
+			ro := outs[refs[i]]
+			if refs[i] == i || (ro.Status == o.Status && ro.Symptom == o.Symptom) {
+				// the single-GPU run fails (the same way): not a question of spread (C01's subject)
+				undecided++
+				undecidedNames = append(undecidedNames, c.Name()+": "+o.Status+" "+o.Symptom)
+				refFailed = append(refFailed, c.Name()+": "+o.Symptom)
+				continue
+			}
+			add(c18aSig(c, "run-failed:"+o.Symptom), pair, fmt.Sprintf("the run itself failed in stage %s (the 1-GPU run: %s %s):\n%s", o.Stage, ro.Status, ro.Symptom, o.Detail))
 			continue
 		}
 		if refs[i] == i {
@@ -222,10 +254,16 @@ func RunC18a(r *harness.Run) {
 		ro := outs[refs[i]]
 		if ro.Status != "ok" {
 			undecided++
+			undecidedNames = append(undecidedNames, c.Name()+": "+o.Status+" "+o.Symptom)
 			continue
 		}
 		compared++
 		w := Lookup(c.Workload)
+		if len(w.Outputs) == 0 {
+			tolOnly++ // both runs passed the operator's own GPU-vs-CPU comparison
+			classes[fmt.Sprintf("%s/%s/%s/%s", c.Workload, c.Arch, c.GPUSet(), c.Platform())] = true
+			continue
+		}
 		eq, tol, msg := compareOutputs(w, ro.Res, o.Res)
 		if eq {
 			equalN++
@@ -263,16 +301,19 @@ func RunC18a(r *harness.Run) {
 	r.Cov["lattice_points"] = len(cases)
 	r.Cov["lattice_comparisons"] = compared
 	r.Cov["lattice_bit_identical"] = equalN
+	r.Cov["lattice_within_workload_tolerance_only"] = tolOnly
 	r.Cov["lattice_distinct_classes_identical"] = len(classes)
 	r.Cov["lattice_differing_signatures"] = len(sigs)
 	r.Cov["lattice_undecided"] = undecided
+	r.Cov["lattice_undecided_cases"] = undecidedNames
+	r.Cov["lattice_single_gpu_run_fails_too"] = refFailed
 	r.Cov["lattice_inadmissible_skipped"] = skipped
 	r.Cov["lattice_flaky"] = st.Flaky
 	r.Cov["lattice_driver_races_in_pool"] = st.LostWakeups
 	r.Cov["lattice_capped"] = st.Capped
 	r.Cov["lattice_samples"] = samples
 	r.Cov["lattice_wall_s"] = time.Since(t0).Seconds()
-	r.Cov["lattice_exhaustive"] = undecided == 0 && len(st.Flaky) == 0 && st.NotStarted == 0
+	r.Cov["lattice_exhaustive"] = undecided == len(refFailed) && len(st.Flaky) == 0 && st.NotStarted == 0
 	r.Cov["lattice_rule"] = "one comparison = the output buffers of one (workload, size, arch, mode) run on a GPU set {u1, g12, g1234, u12, u1234} compared bit for bit with the run on GPU 1 alone, same inputs (math/rand seeded); outputs are read back through Driver.MemCopyD2H after the run"
 	fmt.Printf("C18a lattice: %d runs, %d comparisons, %d bit-identical, %d differing signature(s), %d undecided, %.0fs\n",
 		st.Executed, compared, equalN, len(sigs), undecided, time.Since(t0).Seconds())
